@@ -254,6 +254,8 @@ def component_kwargs(spec):
         nullable=spec["nullable"], unique=spec["unique"], coerce=spec["coerce"],
         report_duplicates=KEEP[spec["reportDup"]],
     )
+    if spec.get("default") is not None:
+        kw["default"] = to_py(spec["default"])
     return kw
 
 
@@ -291,6 +293,8 @@ def schema_of(S, **extra):
         strict=strict, ordered=S["ordered"],
         unique=S["unique"] or None,
         report_duplicates=KEEP[S["reportDup"]],
+        coerce=S.get("coerce", False), add_missing_columns=S.get("addMissing", False),
+        drop_invalid_rows=S.get("dropInvalid", False),
         **extra,
     )
 
@@ -354,6 +358,7 @@ def gen_colspec(rng: random.Random, name, dtype, regex=None, nchecks=None):
         "required": rng.random() < 0.85, "coerce": False,
         "reportDup": rng.choice(["first", "last", "none"]),
         "checks": [gen_check(rng, dtype) for _ in range(nchecks)],
+        "default": None,
     }
 
 
